@@ -60,9 +60,9 @@ func c18FeeFnConfig() {
 // c18ConfTargets lists the conf targets the construction entry is split over.
 // quick: the small widths, the values around chainfee.MaxBlockTarget and two
 // large ones; thorough: additionally every conf target up to C18_NEW_W+1.
-func c18ConfTarget() uint32 {
+func c18ConfTarget(extra int) uint32 {
 	special := []uint32{0, 1, 2, 3, 4, 7, 145, 1007, 1008, 1009, 2016, 4000000}
-	k := vChoice("ct", len(special)+C18_NEW_EXTRA)
+	k := vChoice("ct", len(special)+extra)
 	if k < len(special) {
 		return special[k]
 	}
@@ -74,7 +74,13 @@ func c18ConfTarget() uint32 {
 // complementary region is the subject of VerifC18NewFloorAboveCeiling).
 func VerifC18New() {
 	c18FeeFnConfig()
-	c18New(true)
+	c18New(true, 0)
+}
+
+// VerifC18NewT: thorough tier, additionally every conf target 5..148.
+func VerifC18NewT() {
+	c18FeeFnConfig()
+	c18New(true, 144)
 }
 
 // VerifC18NewFloorAboveCeiling: the same entry without the region restriction.
@@ -82,11 +88,11 @@ func VerifC18New() {
 // NOTES.md (start rate above the ceiling for conf targets >= 1008).
 func VerifC18NewFloorAboveCeiling() {
 	c18FeeFnConfig()
-	c18New(false)
+	c18New(false, 0)
 }
 
-func c18New(restrict bool) {
-	ct := c18ConfTarget()
+func c18New(restrict bool, extra int) {
+	ct := c18ConfTarget(extra)
 	end := chainfee.SatPerKWeight(vI64("end"))
 	est := &c18Est{
 		rate:  chainfee.SatPerKWeight(vI64("estRate")),
@@ -169,9 +175,15 @@ func c18Make(w uint32) (*LinearFeeFunction, chainfee.SatPerKWeight, chainfee.Sat
 // VerifC18Position: for every width w <= W and position p <= w of a fee
 // function built by the real constructor: start <= rate(p) <= end,
 // rate(p) <= rate(p+1), rate(0) = start, rate(w) = end.
-func VerifC18Position() {
+func VerifC18Position() { c18Position(1, 6) }
+
+// VerifC18PositionT: thorough tier, widths wblk*9+1 .. wblk*9+9 (wblk pinned
+// per shard, 16 shards: W = 144).
+func VerifC18PositionT() { c18Position(16, 9) }
+
+func c18Position(blocks, per int) {
 	c18FeeFnConfig()
-	w := uint32(vChoice("w", C18_POS_W) + 1)
+	w := uint32(vChoice("wblk", blocks)*per + vChoice("w", per) + 1)
 	l, start, end := c18Make(w)
 	vReach("constructed")
 	p := uint32(vChoice("p", int(w)+1))
@@ -194,7 +206,12 @@ func VerifC18Position() {
 
 // VerifC18Mono: monotonicity of feeRateAtPosition for an arbitrary delta
 // (independent of how delta was derived), positions p < q.
-func VerifC18Mono() {
+func VerifC18Mono() { c18Mono(1, 8, 2) }
+
+// VerifC18MonoT: thorough tier, every p < 1008 (16 blocks of 63), q-p in 1..3.
+func VerifC18MonoT() { c18Mono(16, 63, 3) }
+
+func c18Mono(blocks, perBlock, steps int) {
 	c18FeeFnConfig()
 	start := chainfee.SatPerKWeight(vI64("start"))
 	end := chainfee.SatPerKWeight(vI64("end"))
@@ -202,14 +219,14 @@ func VerifC18Mono() {
 	vAssume(start >= 0 && start <= end && int64(end) < c18MaxRate)
 	// delta = (end-start)*1000/width <= 2^40*1000 < 2^50
 	vAssume(delta >= 0 && delta < 1<<50)
-	blk := vChoice("blk", C18_MONO_BLOCKS)
-	step := uint32(vChoice("step", C18_MONO_STEPS) + 1)
+	blk := vChoice("blk", blocks)
+	step := uint32(vChoice("step", steps) + 1)
 	l := &LinearFeeFunction{
 		startingFeeRate: start, endingFeeRate: end, currentFeeRate: start,
 		width: 100000, deltaFeeRate: mSatPerKWeight(delta),
 	}
-	for i := 0; i < C18_MONO_PER_BLOCK; i++ {
-		p := uint32(blk*C18_MONO_PER_BLOCK + i)
+	for i := 0; i < perBlock; i++ {
+		p := uint32(blk*perBlock + i)
 		rp, rq := l.feeRateAtPosition(p), l.feeRateAtPosition(p+step)
 		vAssert(rp <= rq, "rate(p) <= rate(q) for p < q, any delta >= 0")
 		vAssert(rp >= start && rq <= end, "start <= rate <= ceiling, any delta >= 0")
@@ -220,9 +237,14 @@ func VerifC18Mono() {
 // VerifC18Walk: a fee function built by the real constructor is driven by a
 // sequence of block arrivals (heights may be skipped or repeated, or the
 // caller uses Increment); after every step the offered rate is observed.
-func VerifC18Walk() {
+func VerifC18Walk() { c18Walk(4, 2) }
+
+// VerifC18WalkT: thorough tier, widths 1..6, three steps.
+func VerifC18WalkT() { c18Walk(6, 3) }
+
+func c18Walk(maxW, steps int) {
 	c18FeeFnConfig()
-	w := uint32(vChoice("w", C18_WALK_W) + 1)
+	w := uint32(vChoice("w", maxW) + 1)
 	l, start, end := c18Make(w)
 	const h0 = int32(800000)
 	deadline := h0 + int32(w) + 1
@@ -230,7 +252,7 @@ func VerifC18Walk() {
 	prev := l.FeeRate()
 	vAssert(prev == start, "first offered rate is the start rate")
 	height := h0
-	for i := 0; i < C18_WALK_STEPS; i++ {
+	for i := 0; i < steps; i++ {
 		// op 0: Increment; op k>0: a block beat at height+k-1 (k-1 = 0
 		// repeats the height, k-1 > 1 skips heights), up to two blocks
 		// past the deadline.
